@@ -70,8 +70,10 @@ Definition rorder (oe : orderexpr) : script :=
   match oe with
   | OrderExpr e o n =>
       let pre := match b, n with
-                 | MySQL, Some NLast => rex e ++ wss " IS NULL ASC, "
-                 | MySQL, Some NFirst => rex e ++ wss " IS NULL DESC, "
+                 (* the emulated key is the expression `e IS NULL` (e.is_null()), so e is parenthesised
+                    where its top-level operator binds looser than IS *)
+                 | MySQL, Some NLast => rex (EBinary e BIs (EKeyword KwNull)) ++ wss " ASC, "
+                 | MySQL, Some NFirst => rex (EBinary e BIs (EKeyword KwNull)) ++ wss " DESC, "
                  | _, _ => []
                  end in
       let main := (match o with OField _ => [] | _ => rex e end) ++
